@@ -1187,6 +1187,151 @@ func (p *Program) cone(roots ...*ssa.Function) map[*ssa.Function]bool {
 // and maximum number of instructions satisfying isM met on such a path, plus the
 // number of distinct end instructions reached. Back edges are not followed.
 func countPaths(fn *ssa.Function, start ssa.Instruction, isEnd, isM func(ssa.Instruction) bool) (min, max, ends int) {
+	if mn, mx, n, ok := countPathsSensitive(fn, start, isEnd, isM); ok {
+		return mn, mx, n
+	}
+	return countPathsPlain(fn, start, isEnd, isM)
+}
+
+// countPathsSensitive is countPaths over feasible paths only: like reachCore it carries the value each phi takes on the
+// path and does not follow a branch whose condition those values decide the other way (a result flag set by an inlined
+// helper, tested right behind it).  ok is false when the search gets too large; the caller then counts all paths.
+func countPathsSensitive(fn *ssa.Function, start ssa.Instruction, isEnd, isM func(ssa.Instruction) bool) (min, max, ends int, ok bool) {
+	type res struct {
+		min, max int
+		ok       bool
+	}
+	memo := map[string]res{}
+	onStack := map[string]bool{}
+	endSeen := map[ssa.Instruction]bool{}
+	steps := 0
+	overflow := false
+	var fromBlock func(b *ssa.BasicBlock, idx int, env phiEnv) res
+	fromBlock = func(b *ssa.BasicBlock, idx int, env phiEnv) res {
+		steps++
+		if steps > 20000 {
+			overflow = true
+			return res{}
+		}
+		key := ""
+		if idx == 0 {
+			key = fmt.Sprintf("%d|%s", b.Index, envKey(env))
+			if r, ok := memo[key]; ok {
+				return r
+			}
+			if onStack[key] {
+				return res{}
+			}
+			// a block already on the stack under another environment is a way round a loop: not followed either
+			for k := range onStack {
+				if onStack[k] && strings.HasPrefix(k, fmt.Sprintf("%d|", b.Index)) {
+					return res{}
+				}
+			}
+			onStack[key] = true
+			defer func() { onStack[key] = false }()
+		}
+		n := 0
+		for i := idx; i < len(b.Instrs); i++ {
+			in := b.Instrs[i]
+			if isEnd(in) {
+				endSeen[in] = true
+				r := res{n, n, true}
+				if idx == 0 {
+					memo[key] = r
+				}
+				return r
+			}
+			if isM(in) {
+				n++
+			}
+		}
+		allow := []bool{true, true}
+		if len(b.Succs) == 2 {
+			if iff, ok := b.Instrs[len(b.Instrs)-1].(*ssa.If); ok {
+				old := reachEnv
+				reachEnv = env
+				switch evalCond(iff.Cond, env, 0) {
+				case 1:
+					allow[1] = false
+				case 0:
+					allow[0] = false
+				}
+				reachEnv = old
+			}
+		}
+		out := res{}
+		for si, sb := range b.Succs {
+			if si < 2 && !allow[si] {
+				continue
+			}
+			ne := env
+			pi := -1
+			for k, pr := range sb.Preds {
+				if pr == b {
+					pi = k
+				}
+			}
+			copied := false
+			for _, in := range sb.Instrs {
+				ph, isPhi := in.(*ssa.Phi)
+				if !isPhi {
+					break
+				}
+				if pi < 0 || pi >= len(ph.Edges) {
+					continue
+				}
+				if !copied {
+					c2 := phiEnv{}
+					for k, v := range ne {
+						c2[k] = v
+					}
+					ne, copied = c2, true
+				}
+				v := ph.Edges[pi]
+				if p2, isP := v.(*ssa.Phi); isP {
+					if r, has := env[p2]; has {
+						v = r
+					}
+				}
+				ne[ph] = v
+			}
+			r := fromBlock(sb, 0, ne)
+			if !r.ok {
+				continue
+			}
+			if !out.ok {
+				out = res{r.min + n, r.max + n, true}
+			} else {
+				if r.min+n < out.min {
+					out.min = r.min + n
+				}
+				if r.max+n > out.max {
+					out.max = r.max + n
+				}
+			}
+		}
+		if idx == 0 {
+			memo[key] = out
+		}
+		return out
+	}
+	var r res
+	if start == nil {
+		r = fromBlock(fn.Blocks[0], 0, nil)
+	} else {
+		r = fromBlock(start.Block(), idxIn(start)+1, nil)
+	}
+	if overflow {
+		return 0, 0, 0, false
+	}
+	if !r.ok {
+		return -1, -1, 0, true
+	}
+	return r.min, r.max, len(endSeen), true
+}
+
+func countPathsPlain(fn *ssa.Function, start ssa.Instruction, isEnd, isM func(ssa.Instruction) bool) (min, max, ends int) {
 	type res struct {
 		min, max int
 		ok       bool
